@@ -119,7 +119,7 @@ func c09Check(g *cvGen, types []cty.Type) {
 
 // verifC09Pairs: every pair of depth-1 types (placeholders included).
 func verifC09Pairs() {
-	g := &cvGen{special: 1, width: 1 + vTier(), dynSrc: true, canon: vTier() == 0, concStr: true, shortStr: true}
+	g := &cvGen{special: 1, width: 1 + vTier(), dynSrc: true, canon: true}
 	types := []cty.Type{g.typ("t0", 1), g.typ("t1", 1)}
 	c09Check(g, types)
 }
